@@ -366,7 +366,7 @@ def gen_run(seed: int, tier: str, sub: str) -> dict:
             ctxs.sort(key=RESOLUTION.index, reverse=(order == 2))
         cfg['ladder'] = ctxs
         for name in m['BARE']:
-            args = catalogue('main', name, m['SIG'][name])[rot % 4]
+            args = catalogue('main', name, m['SIG'][name])[rot % 2]
             for cname in ctxs:
                 call_pool.append(('main', name, args, cname))
     elif shape == 'sweep':
@@ -428,7 +428,9 @@ def gen_run(seed: int, tier: str, sub: str) -> dict:
         for t in range(nthreads):
             ops = []
             for name in names:
-                cname = r.choice(CTX_NAMES)
+                # (one context per function, so that the same calls recur from run to run and the
+                # fresh-process references are shared: forks are the scarce resource here)
+                cname = CTX_NAMES[sum(map(ord, name)) % len(CTX_NAMES)]
                 cat = catalogue('main', name, m['SIG'][name])
                 for e in range(CATALOGUE):
                     ops.append({'op': 'call', 'fn': ['main', name], 'key': {'root': ['main', name], 'chain': []},
